@@ -94,6 +94,11 @@ class Report:
         if signature in self._seen_signatures:
             return "duplicate"
         self._seen_signatures.add(signature)
+        if self.violations >= 25:
+            # exit status is decided already; further counterexamples are counted, not replayed
+            self.coverage["further_counterexamples_not_replayed"] = \
+                self.coverage.get("further_counterexamples_not_replayed", 0) + 1
+            return "skipped"
         os.makedirs(REPLAY_DIR, exist_ok=True)
         h = hashlib.sha1(signature.encode()).hexdigest()[:10]
         name = f"{self.pid}-{h}.py"
